@@ -310,6 +310,22 @@ def oracle_network(case, rec):
             floor = float(np.sum(w)) ** 2 if (
                 "newman" in name or "arenas" in name) else 1.0
             compare(rec, name, kind, a, b, parents, tol, floor)
+    if directed:
+        # measures the library only offers for undirected networks: they are
+        # refused (NotImplementedError, or the assert in nsi_betweenness) - or,
+        # wherever a result comes
+        # back, it is split-invariant like every other n.s.i. measure
+        done = {t[0] for t in table}
+        for name, kind, kw in NET_UNDIRECTED:
+            if name in done or ("key" in kw and W is None):
+                continue
+            meth = _base(name)
+            oka, a = rec.call(name + "_dir_raises", getattr(net, meth),
+                              allowed=(NotImplementedError, AssertionError), **kw)
+            okb, b = rec.call(name + "_dir_raises_split", getattr(net2, meth),
+                              allowed=(NotImplementedError, AssertionError), **kw)
+            if oka and okb and a is not None and b is not None:
+                compare(rec, name + "_dir", kind, a, b, parents, 1e-9)
 
 
 def oracle_interacting(case, rec):
